@@ -181,7 +181,8 @@ func (v objectValidator) validateTypeRules(objectNode *schema.ObjectNode, value 
 			})
 
 			if !inside {
-				if bytes.Equal(node.Value(), value) {
+				// Compare the values, not their spellings: "a\/b" is the key "a/b".
+				if bytes.Equal(node.Value().Unquote(), value.Unquote()) {
 					flag = true
 				}
 			}
